@@ -91,17 +91,40 @@ class LogActionContext(ActionContext):
 
                 return log_str, field_name
 
-        try:
-            text = FormatExtractor().vformat(log_msg, (), FormatDict(self.trigger_context.locals))
-        except ValueError:
-            # string.Formatter reads '!' and ':' in a field as conversion and format spec: '{a != b}', a lambda or a
-            # dict display in a field fail in its parser, and with them the whole message (and snapshot) was lost.
-            # Such a template is rendered with the whole text between the braces as the expression.
-            del watch_results[:]
-            _var_lookup.clear()
+            def format_field(self, value, format_spec):
+                # the value is the text of the field already: a format spec that does not fit text ({n:05d}) leaves it
+                # as it is (it used to fail the whole message)
+                try:
+                    return super().format_field(value, format_spec)
+                except ValueError:
+                    return value
+
+        # string.Formatter reads '!' and ':' in a field as conversion and format spec: '{a != b}', a lambda or a dict
+        # display in a field fail in its parser, and with them the whole message (and snapshot) was lost. Such a
+        # template is rendered with the whole text between the braces as the expression. Which way a template is
+        # rendered is decided BEFORE any field is evaluated: every field is evaluated exactly once.
+        if self.__fields_are_whole_expressions(log_msg):
             text = self.__render_plain(log_msg, FormatExtractor())
+        else:
+            text = FormatExtractor().vformat(log_msg, (), FormatDict(self.trigger_context.locals))
         log_msg = "[deep] %s" % text
         return log_msg, watch_results, _var_lookup
+
+    @staticmethod
+    def __fields_are_whole_expressions(template: str) -> bool:
+        import string
+        try:
+            for _, name, format_spec, conversion in string.Formatter().parse(template):
+                if name is not None and (format_spec or conversion):
+                    whole = name + ('!' + conversion if conversion else '') + (':' + format_spec if format_spec else '')
+                    try:
+                        compile(whole.strip(), '<log field>', 'eval')
+                        return True     # e.g. a lambda or a dict display: the ':' belongs to the expression
+                    except SyntaxError:
+                        pass            # a real format spec ({n:>5}): string.Formatter applies it to the text
+            return False
+        except ValueError:
+            return True                 # e.g. '{a != b}': string.Formatter cannot even parse it
 
     @staticmethod
     def __render_plain(template: str, extractor) -> str:
